@@ -329,6 +329,11 @@ func (ev *c04Ev) expr(e ast.Expr) c04V {
 			if a.k == 'b' && b.k == 'b' && (x.Op == token.EQL || x.Op == token.NEQ) {
 				return c04Bool((a.b == b.b) == (x.Op == token.EQL))
 			}
+			if x.Op == token.EQL || x.Op == token.NEQ {
+				if eq, ok := c04NilCmp(a, b); ok {
+					return c04Bool(eq == (x.Op == token.EQL))
+				}
+			}
 			return c04Sym(c04CanonCmp(a.String(), x.Op, b.String()))
 		case token.ADD, token.SUB, token.MUL:
 			ev.arith = true
@@ -345,64 +350,124 @@ func (ev *c04Ev) expr(e ast.Expr) c04V {
 		}
 		return c04Sym(a.String() + " " + x.Op.String() + " " + b.String())
 	case *ast.CallExpr:
-		if id, ok := x.Fun.(*ast.Ident); ok {
-			if c04ConvNames[id.Name] && len(x.Args) == 1 {
-				return ev.expr(x.Args[0])
-			}
-			// same-package helper: inline
-			if fd := findFunc(ev.files, id.Name); fd != nil && fd.Body != nil && ev.depth < 3 {
-				names := c04ParamNames(fd.Type)
-				if len(names) == len(x.Args) {
-					sub := &c04Ev{ce: ev.ce, files: ev.files, vars: map[string]c04V{}, sel: map[string]c04V{},
-						roles: ev.roles, depth: ev.depth + 1}
-					for i, a := range x.Args {
-						v := ev.expr(a)
-						sub.vars[names[i]] = v
-						// pass the known fields of a struct argument along
-						if aid, ok := c04Unparen(a).(*ast.Ident); ok {
-							for k, sv := range ev.sel {
-								if strings.HasPrefix(k, aid.Name+".") {
-									sub.sel[names[i]+k[len(aid.Name):]] = sv
-								}
-							}
-						}
-					}
-					ret, ok := sub.stmts(fd.Body.List)
-					ev.arith = ev.arith || sub.arith
-					if sub.bad != "" {
-						ev.fail("%s", sub.bad)
-					}
-					if ok && len(ret) > 0 {
-						return ret[0]
-					}
-				}
-			}
-			if _, isType := map[string]bool{"Version": true, "State": true, "witnessType": true}[id.Name]; isType && len(x.Args) == 1 {
-				return ev.expr(x.Args[0])
-			}
-		}
-		// method on a value with known fields, e.g. wt.IsExpirySpend(): inline the method
-		if se, ok := x.Fun.(*ast.SelectorExpr); ok && len(x.Args) == 0 && ev.depth < 3 {
-			if rid, ok := c04Unparen(se.X).(*ast.Ident); ok {
-				if rv, ok := ev.vars[rid.Name]; ok && rv.k == 'i' {
-					for _, recv := range []string{"witnessType", "Version", "State"} {
-						if fd := findFunc(ev.files, recv+"."+se.Sel.Name); fd != nil && fd.Recv != nil &&
-							len(fd.Recv.List) == 1 && len(fd.Recv.List[0].Names) == 1 {
-							sub := &c04Ev{ce: ev.ce, files: ev.files, vars: map[string]c04V{
-								fd.Recv.List[0].Names[0].Name: rv}, sel: map[string]c04V{}, roles: ev.roles,
-								depth: ev.depth + 1}
-							ret, ok := sub.stmts(fd.Body.List)
-							if ok && len(ret) > 0 && sub.bad == "" {
-								return ret[0]
-							}
-						}
-					}
-				}
-			}
+		if ret, ok := ev.call(x); ok && len(ret) > 0 {
+			return ret[0]
 		}
 		return c04Sym(c04Canon(x, ev.roles))
 	}
 	return c04Sym(c04Canon(e, ev.roles))
+}
+
+// call evaluates a conversion, a same-package function or a method of a
+// same-package type (any receiver) by inlining its body; all results are
+// returned.
+func (ev *c04Ev) call(x *ast.CallExpr) ([]c04V, bool) {
+	if id, ok := x.Fun.(*ast.Ident); ok {
+		if (c04ConvNames[id.Name] || id.Name == "Version" || id.Name == "State" || id.Name == "witnessType") &&
+			len(x.Args) == 1 {
+			return []c04V{ev.expr(x.Args[0])}, true
+		}
+		if fd := findFunc(ev.files, id.Name); fd != nil && fd.Body != nil && ev.depth < 3 {
+			return ev.inline(fd, nil, x.Args)
+		}
+		return nil, false
+	}
+	se, ok := x.Fun.(*ast.SelectorExpr)
+	if !ok || ev.depth >= 3 {
+		return nil, false
+	}
+	rid, ok := c04Unparen(se.X).(*ast.Ident)
+	if !ok {
+		return nil, false
+	}
+	if _, known := ev.vars[rid.Name]; !known {
+		hasSel := false
+		for k := range ev.sel {
+			hasSel = hasSel || strings.HasPrefix(k, rid.Name+".")
+		}
+		if !hasSel {
+			return nil, false
+		}
+	}
+	for _, f := range ev.files {
+		for _, d := range f.Decls {
+			fd, ok := d.(*ast.FuncDecl)
+			if !ok || fd.Recv == nil || fd.Body == nil || fd.Name.Name != se.Sel.Name {
+				continue
+			}
+			if len(c04ParamNames(fd.Type)) != len(x.Args) {
+				continue
+			}
+			if ret, ok := ev.inline(fd, rid, x.Args); ok {
+				return ret, true
+			}
+		}
+	}
+	return nil, false
+}
+
+func (ev *c04Ev) inline(fd *ast.FuncDecl, recv *ast.Ident, args []ast.Expr) ([]c04V, bool) {
+	names := c04ParamNames(fd.Type)
+	if len(names) != len(args) {
+		return nil, false
+	}
+	sub := &c04Ev{ce: ev.ce, files: ev.files, vars: map[string]c04V{}, sel: map[string]c04V{},
+		roles: ev.roles, depth: ev.depth + 1}
+	pass := func(from *ast.Ident, to string) {
+		if v, ok := ev.vars[from.Name]; ok {
+			sub.vars[to] = v
+		}
+		for k, sv := range ev.sel {
+			if strings.HasPrefix(k, from.Name+".") {
+				sub.sel[to+k[len(from.Name):]] = sv
+			}
+		}
+	}
+	if recv != nil {
+		rn := c04RecvNameOf(fd)
+		if rn == "" {
+			return nil, false
+		}
+		pass(recv, rn)
+	}
+	for i, a := range args {
+		sub.vars[names[i]] = ev.expr(a)
+		if aid, ok := c04Unparen(a).(*ast.Ident); ok {
+			pass(aid, names[i])
+		}
+	}
+	ret, ok := sub.stmts(fd.Body.List)
+	ev.arith = ev.arith || sub.arith
+	if sub.bad != "" || !ok {
+		return nil, false
+	}
+	return ret, true
+}
+
+func c04RecvNameOf(fd *ast.FuncDecl) string {
+	if fd.Recv != nil && len(fd.Recv.List) == 1 && len(fd.Recv.List[0].Names) == 1 {
+		return fd.Recv.List[0].Names[0].Name
+	}
+	return ""
+}
+
+// c04NilCmp decides `x == nil` / `x != nil` for symbolic values: the literal
+// nil, or a freshly constructed value (a call) which is not nil.
+func c04NilCmp(a, b c04V) (equal, ok bool) {
+	if a.k != 's' || b.k != 's' || (a.s != "nil" && b.s != "nil") {
+		return false, false
+	}
+	if a.s == "nil" && b.s == "nil" {
+		return true, true
+	}
+	other := a.s
+	if other == "nil" {
+		other = b.s
+	}
+	if strings.Contains(other, "(") {
+		return false, true
+	}
+	return false, false
 }
 
 func c04IsConstName(s string) bool {
@@ -474,9 +539,19 @@ func (ev *c04Ev) stmt(st ast.Stmt) ([]c04V, bool) {
 				}
 			}
 		} else {
-			for _, l := range x.Lhs {
+			var ret []c04V
+			if c, ok := c04Unparen(x.Rhs[0]).(*ast.CallExpr); ok && len(x.Rhs) == 1 {
+				if r, ok := ev.call(c); ok && len(r) == len(x.Lhs) {
+					ret = r
+				}
+			}
+			for i, l := range x.Lhs {
 				if id, ok := l.(*ast.Ident); ok {
-					ev.vars[id.Name] = c04Sym("?" + id.Name)
+					if ret != nil {
+						ev.vars[id.Name] = ret[i]
+					} else {
+						ev.vars[id.Name] = c04Sym("?" + id.Name)
+					}
 				}
 			}
 		}
